@@ -63,8 +63,9 @@ def check_seq(ctx, seq, container=list):
     data_nonint = any(not isinstance(x, Integral) for x in body)
     status_nonint = not data_nonint and not ints
     arg = container(seq) if container is not list else list(seq)
-    case = lambda: {'kind': 'seq', 'seq': [x if isinstance(x, int) else repr(x) for x in seq],  # noqa: E731
-                    'container': container.__name__}
+    case = lambda: ({'kind': 'seq', 'seq': [x if isinstance(x, int) else repr(x) for x in seq],  # noqa: E731
+                     'container': container.__name__} if len(seq) <= 5000 else
+                    {'kind': 'long-seq', 'len': len(seq), 'head': list(seq[:4]), 'tail': list(seq[-2:]), 'container': container.__name__})
     key = statusclass(seq)
     try:
         m = Message.from_bytes(arg)
@@ -408,6 +409,28 @@ def array_and_long_cases(ctx):
         check_seq(ctx, [0xF0] + [1] * ln + [0xF7], tuple)
         check_seq(ctx, [0xF0] + [1] * ln, list)
         n += 2
+    # "any sequence of integers": also a very long one (a bulk dump, a stuck sender) - a message, or ValueError
+    for ln in (999_998, 1_000_001, 1_048_576):
+        check_seq(ctx, [0xF0] + [ln % 128] * ln + [0xF7], bytes)
+        check_seq(ctx, [0xF0] + [1] * ln, bytearray)
+        check_seq(ctx, [0x90] + [1] * ln, bytes)
+        check_seq(ctx, [0xF8] + [0xF8] * ln, list)
+        check_seq(ctx, [0x00] * ln, tuple)
+        n += 5
+    return n
+
+
+def nested_sequence_cases(ctx):
+    """Items that are themselves encodings of a message (a (bytes, delta) pair as a device driver hands it over, a list of
+    messages, a message wrapped once too often) are not integers."""
+    n = 0
+    for b in ([0xF8], [0x90, 60, 64], [0xF0, 1, 0xF7], [0xC5, 60], [0xF6], [0xF0, 0xF7]):
+        for inner in (list(b), tuple(b), bytes(b), bytearray(b)):
+            for seq in ([inner, 0], [inner, 0.5], [inner, None], [inner], [inner, inner], [[inner, 0]], [inner, 0, 0],
+                        [0, inner], [inner, 1.0], [inner, b[-1]]):
+                for cont in (list, tuple):
+                    check_seq(ctx, seq, cont)
+                    n += 1
     return n
 
 
@@ -558,7 +581,7 @@ def run(ctx):
         ctx.extra('cases_repeated_after_perturbations', h)
         n += h
     if ctx.shard == 4 % ctx.nshards:
-        h = array_and_long_cases(ctx) + positional_time_cases(ctx) + subclass_decoder_cases(ctx) + backend_delivery_cases(ctx)
+        h = array_and_long_cases(ctx) + nested_sequence_cases(ctx) + positional_time_cases(ctx) + subclass_decoder_cases(ctx) + backend_delivery_cases(ctx)
         ctx.nontrivial(None, h)
         ctx.extra('array_and_long_sysex_cases', h)
         n += h
@@ -609,7 +632,7 @@ def replay(ctx, case):
         cont = {'list': list, 'tuple': tuple, 'bytes': bytes,
                 'bytearray': bytearray}[case['container']]
         check_seq(ctx, [_unrepr(x) for x in case['seq']], cont)
-    elif case['kind'] in ('array', 'long-sysex'):
+    elif case['kind'] in ('array', 'long-sysex', 'long-seq'):
         array_and_long_cases(ctx)
     elif case['kind'] == 'history':
         history_cases(ctx)
